@@ -1,5 +1,6 @@
 import XModel.Opt
 import XModel.OptLimits
+import XModel.MeritNum
 /-!
 # C09 — solve() returns only on a matched point and otherwise restores the knobs
 Model: `XModel/Opt.lean`, the control skeleton of `Optimize.solve / step / reload`,
@@ -63,5 +64,50 @@ example : isOk (solve cfgOk [it1] none sStart).1 = true ∧
     ((solve cfgOk [it1] none sStart).2.knobs 0, (solve cfgOk [it1] none sStart).2.knobs 1) = (3, 3) := by
   decide +kernel
 end example_
+
+/-! ### what "matched" means: the residual computation of the merit function (`XModel/MeritNum.lean`)
+
+`Cfg.within` is a free field of the skeleton — none of the theorems above assumes anything about it.  The code's
+instance is `MeritNum.withinOf` (`np.all((np.abs(res - value) < tol) | ~mask_output)` with the `value` / `tol` / `active`
+attributes the targets have when the merit function is called — no copy made earlier); the driver recomputes
+`MeritNum.lastWithin` on doubles for every recorded evaluation of the real merit function and compares it with the
+`last_point_within_tol` the code set (suite `opt`, op `merit`, field `within_ok`). -/
+
+/-- the flag `last_point_within_tol` computed by the merit function is set iff every ACTIVE target is within its CURRENT
+    tolerance of its wanted value: `|res[i] - value[i]| < tol[i]` wherever `active[i]` (any number type, any operations;
+    a disabled target, whatever its value, plays no role) -/
+theorem C09_matched_means_within_current_tolerances (o : MeritNum.NumOps R) (res tar tols : List R) (mask : List Bool) :
+    MeritNum.lastWithin o res tar tols mask = true ↔
+      ∀ (i : Nat) (r t tl : R), mask[i]? = some true → res[i]? = some r → tar[i]? = some t → tols[i]? = some tl →
+        o.lt (o.abs (o.sub r t)) tl = true :=
+  MeritNum.lastWithin_iff o res tar tols mask
+
+/-- `C09_return_matched` with the code's tolerance predicate plugged in: a normal return of `solve` (with
+    `assert_within_tol`) leaves knobs at which the user's function puts every active target within its tolerance -/
+theorem C09_return_matched_within_tolerances (o : MeritNum.NumOps R) (nt : Nat) (tar tols : List R) (c : Cfg R)
+    (hc : c.within = MeritNum.withinOf o nt tar tols) (its : List (Iter R)) (tb : Option Nat) (s s' : St R)
+    (hassert : c.assertWithinTol = true) (h : solve c its tb s = (.ok (), s')) :
+    ∃ res, c.f s'.knobs = some res ∧
+      ∀ (i : Nat) (t tl : R), i < nt → s'.tAct i = true → tar[i]? = some t → tols[i]? = some tl →
+        o.lt (o.abs (o.sub (res i) t)) tl = true :=
+  MeritNum.solve_matched_within o nt tar tols c hc its tb s s' hassert h
+
+/-! non-vacuity: two targets that read the two knobs, wanted value 3 with tolerance 1; the start point (1, -2) is not
+    matched, the accepted point (3, 3) of `it1` is, and `solve` returns normally there; with the tolerance 0 nothing is
+    ever matched and the same `solve` raises `noTol` -/
+section example_merit
+open Opt.LimitsExample
+def cfgMerit (tol : Int) : Cfg Int :=
+  { good with f := fun k => some (fun i => k i), within := MeritNum.withinOf MeritNum.intOps 2 [3, 3] [tol, tol],
+              assertWithinTol := true, restoreIfFail := true }
+example : MeritNum.lastWithin MeritNum.intOps [1, -2] [3, 3] [1, 1] [true, true] = false ∧
+    MeritNum.lastWithin MeritNum.intOps [3, 3] [3, 3] [1, 1] [true, true] = true ∧
+    MeritNum.lastWithin MeritNum.intOps [3, -2] [3, 3] [1, 1] [true, false] = true := by decide
+example : isOk (solve (cfgMerit 1) [it1] none sStart).1 = true ∧
+    ((solve (cfgMerit 1) [it1] none sStart).2.knobs 0, (solve (cfgMerit 1) [it1] none sStart).2.knobs 1) = (3, 3) := by
+  decide +kernel
+example : errOf (solve (cfgMerit 0) [it1] none sStart).1 = some .noTol := by decide +kernel
+example := C09_return_matched_within_tolerances MeritNum.intOps 2 [3, 3] [1, 1] (cfgMerit 1) rfl [it1] none sStart
+end example_merit
 
 end Properties.C09
